@@ -219,6 +219,24 @@ def gen_world(rng):
                 entries.append({"path": nm, "kind": "closest", "c": [holder_g], "l": [expr_g], "reads": nm})
             else:
                 entries.append({"path": nm, "kind": "plain", "c": [], "l": [], "reads": nm, "implied_defect": True})
+    if glob_kind == "toml" and rng.chance(0.3):
+        # globs that end in a star next to globs that begin with one (whatever order the set hands them out in, each is
+        # translated on its own): '*.png' stays in the root directory, 'vendor2/**' takes the whole tree below
+        holder_s, expr_s = "2009 Star Owner", rng.pick(G.VALID)
+        pats = rng.sample(["docs2/*", "*.png", "*.mdx", "vendor2/**", "*2.cfg", "img2/*"], rng.randint(3, 6))
+        tables.append({"path": pats, "precedence": "closest", "SPDX-FileCopyrightText": holder_s, "SPDX-License-Identifier": expr_s})
+        import re as _re2
+
+        def _m2(pat, path):
+            rx = _re2.escape(pat).replace(r"\*\*", ".*").replace(r"\*", "[^/]*")
+            return _re2.fullmatch(rx, path) is not None
+        for nm in ["docs2/guide.txt", "logo2.png", "README2.mdx", "vendor2/a/b.c", "sub2/icon.png", "sub2/NOTES.mdx", "setup2.cfg", "img2/deep/x.txt"]:
+            content = G.BINARY if nm.endswith(".png") else "plain text, no header\n"
+            files.append({"path": nm, "content": content})
+            if any(_m2(pt, nm) for pt in pats):
+                entries.append({"path": nm, "kind": "closest", "c": [holder_s], "l": [expr_s], "reads": nm})
+            else:
+                entries.append({"path": nm, "kind": "plain", "c": [], "l": [], "reads": nm, "implied_defect": True})
     hardlinks = []
     if rng.chance(0.2) and entries:
         # a second name (hard link) for a file whose information lives in its .license companion: the information belongs
